@@ -103,7 +103,8 @@ pub fn drive_sign(t: &mut Tracer, tier: &str, seed: u64, plan: Option<String>) {
     let keys = edge_keys(&mut rng, thorough);
     let long_id: String = std::iter::repeat('A').take(8191).collect();
     // (IDs of 53 / 54 bytes put the Z_A hash input, 2 + |ID| + 192 bytes, at SM3's padding boundary 55 / 56 mod 64)
-    let ids: Vec<String> = vec!["1234567812345678".into(), "".into(), "x".into(), "ALICE123@YAHOO.COM".into(), long_id, "i".repeat(53), "j".repeat(54)];
+    let ids: Vec<String> = vec!["1234567812345678".into(), "".into(), "x".into(), "ALICE123@YAHOO.COM".into(), long_id, "i".repeat(53), "j".repeat(54),
+        "\u{7528}\u{6237}A@\u{793a}\u{4f8b}.cn".into(), "caf\u{e9}-\u{101}\u{201}".into()];      // non-ASCII identities: Z_A hashes the UTF-8 BYTES (ENTL = their bit length)
     let g = Gen::new("mix", rng.below(1 << 20));
     // (23 / 24 put the digest input Z_A || M, 32 + |M| bytes, at SM3's padding boundary)
     let lens: Vec<usize> = if thorough { vec![0, 1, 23, 24, 31, 32, 33, 55, 56, 64, 87, 100, 1000, 4096] } else { vec![0, 1, 23, 24, 32, 100, 700] };
@@ -653,6 +654,12 @@ pub fn drive_kex(t: &mut Tracer, tier: &str, seed: u64, plan: Option<String>) {
             ra_script: vec![], rb_script: vec![], da: rk(&mut rng), db: rk(&mut rng), forge: None, none_mask: 0 };
         kx_run(t, &sess(), &run, &mut rng);
     }
+    // non-ASCII identities (multi-byte UTF-8): Z_A / Z_B hash the identity's bytes
+    for (ida, idb) in [("\u{7528}\u{6237}A", "bob"), ("alice", "\u{101}\u{201}-b"), ("a\u{0101}", "a\u{0201}")] {
+        let run = KxRun { t_ra: false, t_rb: false, t_sb: false, t_sa: false, kind: "none".into(), klen: 20, ida: ida.into(), idb: idb.into(), ra_script: vec![], rb_script: vec![],
+            da: rk(&mut rng), db: rk(&mut rng), forge: None, none_mask: 0 };
+        kx_run(t, &sess(), &run, &mut rng);
+    }
     // default IDs given as None by either party, for its own or for the peer's ID (the other party may spell the default ID out)
     for (ida, idb, mask) in [("alice", "1234567812345678", 2u8), ("alice", "1234567812345678", 4), ("alice", "1234567812345678", 6), ("1234567812345678", "bob", 1), ("1234567812345678", "bob", 8),
                              ("1234567812345678", "bob", 9), ("1234567812345678", "1234567812345678", 15), ("1234567812345678", "1234567812345678", 5)] {
@@ -705,13 +712,27 @@ fn with_log<T: Send + 'static>(script: Vec<[u8; 32]>, f: impl FnOnce() -> gm_sm2
 pub fn injection_script(order_hex: &str, p_hex: &str, rng: &mut Rng, which: usize) -> Vec<[u8; 32]> {
     let n = hexb(order_hex);
     let p = hexb(p_hex);
-    let all: Vec<Vec<u8>> = vec![vec![0u8; 32], n.clone(), be_add_small(&n, 1), be_add_small(&n, 2), be_add_small(&p, -2), be_add_small(&p, -1), p.clone(), vec![0xffu8; 32],
+    let mut all: Vec<Vec<u8>> = vec![vec![0u8; 32], n.clone(), be_add_small(&n, 1), be_add_small(&n, 2), be_add_small(&p, -2), be_add_small(&p, -1), p.clone(), vec![0xffu8; 32],
         be_add_small(&n, (rng.below(1 << 20) + 3) as i64),
         // candidates on which a limb-wise / lexicographic comparison disagrees with the numeric one: >= order but with a small low limb
-        { let mut v = vec![0xffu8; 32]; for b in v[24..32].iter_mut() { *b = 0; } v[31] = 5; v },
-        { let mut v = n.clone(); for b in v[8..32].iter_mut() { *b = 0; } v[7] = v[7].wrapping_add(1); v }];
-    let mut s: Vec<[u8; 32]> = vec![b32(&all[which % all.len()]), b32(&all[(which / 3 + 1) % all.len()])];
-    let mut good = rng.bytes(32); good[0] &= 0x7f;      // finally a good value so that the operation ends
+        { let mut v = vec![0xffu8; 32]; for b in v[24..32].iter_mut() { *b = 0; } v[31] = 5; v }];
+    // candidates >= order that a comparison SKIPPING one 64-bit limb takes for smaller: the order with limb j increased and every lower limb zero
+    for j in 0..4usize {
+        let mut v = n.clone();
+        let hi = 8 * (3 - j);                       // big-endian byte range of limb j (j = 3 most significant)
+        if v[hi + 7] == 0xff { continue; }
+        v[hi + 7] += 1;
+        for b in v[hi + 8..].iter_mut() { *b = 0; }
+        all.push(v);
+        // ... and with the lower limbs just below the order's (all ones would exceed them): lower limbs = order's lower limbs minus one
+        // ... and with the lowest byte 1 / the lower limbs just below the order's (gm-sm9's sampler also refuses candidates whose low limb is zero)
+        if j > 0 { let mut w = n.clone(); w[hi + 7] += 1; for b in w[hi + 8..].iter_mut() { *b = 0; } w[31] = 1; all.push(w); }
+        let mut w = n.clone(); w[hi + 7] += 1; let lo = be_add_small(&w, -2); if lo.as_slice() >= n.as_slice() { all.push(lo); }
+    }
+    // EVERY candidate is offered in every scripted operation (rotated, so that each of them comes first somewhere); then a good value ends the operation
+    let k = which % all.len();
+    let mut s: Vec<[u8; 32]> = all[k..].iter().chain(all[..k].iter()).map(|c| b32(c)).collect();
+    let mut good = rng.bytes(32); good[0] &= 0x7f;
     s.push(b32(&good));
     s
 }
